@@ -192,6 +192,18 @@ CHECKS['C13'] = {
     'technique': 'dependency analysis (uses only through abs) + closed-form extraction with shift-weight rule + term-shape matching of the Yule-Walker pipeline',
 }
 
+CHECKS['C07'] = {
+    'category': 'other',
+    'text': 'Each rule is read from MIR as a linear functional of the integrand and compared with its definition: trapz has dx = (b-a)/n, interior '
+            'nodes a + k dx for k = 1..n-1 and end points with weight 1/2 (total weight n dx: exact for constants); the Gauss-Legendre literals satisfy '
+            'the even-moment conditions up to degree 18 in rational arithmetic and quad5 has the symmetric-pair shape (together: exact up to degree 19 '
+            'on any interval, up to rounding); Romberg has the trapezoid refinement on odd nodes and Richardson factors 4^m - 1; the sampled rule pairs '
+            '(y[i]+y[i-1])/2 with x[i]-x[i-1] under a length assert. Error bounds for smooth integrands and the stopping rule are not decided.',
+    'design_ref': 'DESIGN.md 4.7, 3 (E-TAB, E-IDX index relations)',
+    'note': 'Tolerance 5e-15 on the moment conditions (literals carry 16 digits).',
+    'technique': 'constant-table validation in exact arithmetic + extraction of nodes/weights of the linear functional from closure terms',
+}
+
 NOT_APPLICABLE = {
     'C09': 'accuracy of the Lanczos/asymptotic/Abramowitz-Stegun approximations over a continuum of arguments is a numerical '
            'quantity; no structural clause is a necessary condition without freezing coefficient tables (a brittle proxy); see DESIGN.md 4.9',
